@@ -23,7 +23,9 @@ Init == pos = 1 /\ viol = {} /\ cnt = EmptyCount /\ seen = {} /\ nils = 0
 Step ==
   /\ pos <= Len(Trace)
   /\ LET e == Trace[pos] IN
-       IF e.ev = "reset" THEN seen' = {} /\ nils' = 0 /\ UNCHANGED <<viol, cnt>>
+       \* restart: an ICE restart begins a new gathering of the same connection; its candidates and its
+       \* end-of-gathering marker are counted anew
+       IF e.ev \in {"reset", "restart"} THEN seen' = {} /\ nils' = 0 /\ UNCHANGED <<viol, cnt>>
        ELSE LET ps == Preds(e) IN
             /\ viol' = Merge(viol, Failures(ps, e, pos))
             /\ cnt'  = Count(cnt, ps)
